@@ -537,6 +537,80 @@ fn check_est(out: &mut Out, c: &EstCase) -> Option<(Value, Option<Vec<f64>>)> {
 }
 
 // ------------------------------------------------------------------------------------------
+// api_trait_twin: fit / predict through `smartcore::api::{SupervisedEstimator, Predictor}` give exactly
+// what the inherent methods give (training matrix and query rows, model fitted either way)
+// ------------------------------------------------------------------------------------------
+fn twin_est(c: &EstCase) -> Option<twin::Diff> {
+    type DM = smartcore::linalg::naive::dense_matrix::DenseMatrix<f64>;
+    if c.data.is_empty() || c.data[0].is_empty() || c.queries.is_empty() {
+        return None;
+    }
+    let x = dense(&c.data);
+    let xq = dense(&c.queries);
+    let y = c.y.clone();
+    let probes = [("the training matrix", &x), ("the query rows", &xq)];
+    macro_rules! run {
+        ($ty:ty, $p:expr) => {{
+            let p = $p;
+            twin::check(
+                "SupervisedEstimator",
+                "Predictor",
+                "predict",
+                || twin::fit_sup::<$ty, _, _, _>(&x, &y, p.clone()),
+                || <$ty>::fit(&x, &y, p.clone()),
+                |m: &$ty, z: &DM| twin::predict(m, z),
+                |m: &$ty, z: &DM| m.predict(z),
+                &probes,
+                |m: &$ty| serde_json::to_string(m).unwrap_or_default(),
+                true,
+            )
+        }};
+    }
+    if c.clf {
+        run!(KNNClassifier<f64, Met>, KNNClassifierParameters::default().with_k(c.k).with_algorithm(c.algo()).with_weight(c.weight()).with_distance(c.m.clone()))
+    } else {
+        run!(KNNRegressor<f64, Met>, KNNRegressorParameters::default().with_k(c.k).with_algorithm(c.algo()).with_weight(c.weight()).with_distance(c.m.clone()))
+    }
+}
+
+fn check_twin(out: &mut Out, c: &EstCase) {
+    let mut kd: Vec<f64> = c.y.clone();
+    kd.extend(c.queries.iter().flatten());
+    kd.extend_from_slice(&[c.k as f64, c.cover as u8 as f64, c.distance_w as u8 as f64, c.clf as u8 as f64, -7.0]);
+    out.eval(key_of(&c.data, &kd, &[]), c.data.len() >= 3 && c.k < c.data.len());
+    out.count(&format!("twin:{}:{}:{}", if c.clf { "clf" } else { "reg" }, algo_name(c.cover), if c.distance_w { "distance" } else { "uniform" }));
+    if twin_est(c).is_none() {
+        return;
+    }
+    // shrink: fewer query rows, fewer training rows
+    let mut cur = c.clone();
+    let mut progress = true;
+    while progress {
+        progress = false;
+        let mut i = 0;
+        while cur.queries.len() > 1 && i < cur.queries.len() {
+            let mut t = cur.clone();
+            t.queries.remove(i);
+            if twin_est(&t).is_some() { cur = t; progress = true; } else { i += 1; }
+        }
+        let mut i = 0;
+        while cur.data.len() > 1 && i < cur.data.len() {
+            let mut t = cur.clone();
+            t.data.remove(i);
+            t.y.remove(i);
+            if twin_est(&t).is_some() { cur = t; progress = true; } else { i += 1; }
+        }
+    }
+    if let Some(d) = twin_est(&cur) {
+        let mut w = cur.json();
+        w["oracle"] = json!(twin::ORACLE);
+        w["differing_call"] = json!(d.call);
+        out.count(&format!("twin:failing:{}", if c.clf { "KNNClassifier" } else { "KNNRegressor" }));
+        out.fail(twin::ORACLE, &format!("{}: {}: {}", if c.clf { "KNNClassifier" } else { "KNNRegressor" }, d.call, d.what), w);
+    }
+}
+
+// ------------------------------------------------------------------------------------------
 // data families
 // ------------------------------------------------------------------------------------------
 const FAMILIES: [&str; 10] = ["cont", "lattice", "dyadic", "identical", "collinear", "dups", "binary", "clusters", "scales", "scaleulp"];
@@ -1178,6 +1252,7 @@ fn replay(path: &str) -> i32 {
         "clf" | "reg" => {
             let c = est_from_json(&inp, inp["entry"].as_str() == Some("clf"));
             check_est(&mut out, &c);
+            check_twin(&mut out, &c);
         }
         "heap" => {
             let adds = f64s_from_json(&inp["adds"]);
@@ -1207,7 +1282,7 @@ fn main() {
     let mut rng = Rng::new(a.seed);
     let mut out = Out::new(
         "C04",
-        "search case = (metric, data set, query, k or radius, search structure) resp. (estimator, data, labels, k, weights, structure, query rows) resp. (heap capacity, add sequence); non-trivial: n >= 3 and 1 <= k < n (radius: r > 0; heap: more adds than capacity >= 2); distinct by hash of all of these",
+        "search case = (metric, data set, query, k or radius, search structure) resp. (estimator, data, labels, k, weights, structure, query rows) resp. (heap capacity, add sequence); non-trivial: n >= 3 and 1 <= k < n (radius: r > 0; heap: more adds than capacity >= 2); distinct by hash of all of these. api-trait twin case = an estimator case fitted and queried through smartcore::api::{SupervisedEstimator, Predictor} and through the inherent methods; all results must coincide bit for bit",
     );
     let t = a.thorough;
 
@@ -1350,6 +1425,11 @@ fn main() {
         let lat = rng.bool();
         let adds: Vec<f64> = (0..len).map(|_| if lat { rng.int(0, 5) as f64 } else { rng.uniform(-5.0, 5.0) }).collect();
         check_heap(&mut out, k, &adds);
+    }
+    // api-trait twins (last: the streams of the sections above are unchanged)
+    for i in 0..(if t { 1200 } else { 120 }) {
+        let c = gen_est(&mut rng, if i % 5 == 0 { 60 } else { 20 }, i % 2 == 0);
+        check_twin(&mut out, &c);
     }
     out.finish(&a.out);
 }
